@@ -63,7 +63,11 @@ def gen_history(rng, long=False):
         if rng.random() < 0.1:
             t_id = rng.choice(["x", "t-7", "3"])
         turns.append({"turn_id": t_id, "agent": rng.choice(["A", "B"]), "text": f"hello world {i}", "deltas": deltas, "fault": fault, "exc": exc,
-                      "fail_idx": fail_idx, "t4_enabled": rng.random() < 0.8, "cache_enabled": rng.random() < 0.75, "store_kind": rng.choice(["world"] * 8 + ["no-apply", "absent"])})
+                      "fail_idx": fail_idx, "t4_enabled": rng.random() < 0.8, "cache_enabled": rng.random() < 0.75, "store_kind": rng.choice(["world"] * 8 + ["no-apply", "absent"]),
+                      # the wording of the store's report (a call that returns normally has succeeded, whatever it returns)
+                      "store_reply": rng.choice([None] * 6 + ["empty", "none", "clamped-only", "int"]),
+                      # the host moves the state version between turns (restored an older snapshot, jumped ahead)
+                      "host_version": rng.choice([None] * 8 + ["rewind-2", "rewind-to-0", "ahead-100"])})
         tid = tid + 1 if isinstance(tid, int) else 1
     return {"cfg": cfg, "turns": turns, "raw_namespaces": raw_ns}
 
@@ -125,6 +129,9 @@ def check_history(case, sess: Session):
                 real_store.script = []
                 real_store.fail_all = None
                 real_store.applied_count.clear()
+                real_store.reply = t.get("store_reply")
+                if t.get("store_reply"):
+                    sess.count("turns_with_an_unusual_store_report")
                 if t["fault"] == "batch":
                     real_store.script = [excs]
                 elif t["fault"] == "batch+some-singles":
@@ -137,6 +144,13 @@ def check_history(case, sess: Session):
             for ns in ("t2:semantic", "other:ns", "x:ns"):
                 cm.set(ns, ("sentinel", ti), "v")
             size_other_before = cm._ns["other:ns"].size()
+            if t.get("host_version"):
+                try:
+                    cur_ = int(state.get("version_etag"))
+                    state["version_etag"] = str({"rewind-2": max(0, cur_ - 2), "rewind-to-0": 0, "ahead-100": cur_ + 100}[t["host_version"]])
+                    sess.count("turns_after_the_host_moved_the_version")
+                except Exception:
+                    pass
             ver_before = state.get("version_etag")
             w_before = dict(real_store.w)
             snaps_before = {n: (os.path.getmtime(os.path.join(env.snap_dir, n)), os.path.getsize(os.path.join(env.snap_dir, n))) for n in os.listdir(env.snap_dir)}
